@@ -205,3 +205,29 @@ end
 def noBlanks (e : Bytes) : Bytes := e.filter fun b => !(b == 32 || b == 9 || b == 10 || b == 13)
 
 end TemplVerif.Drive.AstParse
+
+namespace TemplVerif.Drive.AstParse
+open TemplVerif TemplVerif.Ast
+
+/-! Whitespace node values written as one blank (the printer model does not look at them). -/
+mutual
+def mapWsNode : Node → Node
+  | .element n as cs t ia ic => .element n as (mapWs cs) t ia ic
+  | .forE e b => .forE e (mapWs b)
+  | .templEl e b => .templEl e (mapWs b)
+  | .ifE e thn elifs els => .ifE e (mapWs thn) (mapWsElifs elifs) (mapWs els)
+  | .switchE e cs => .switchE e (mapWsCases cs)
+  | .ws _ => .ws [32]
+  | n => n
+def mapWs : Nodes → Nodes
+  | .nil => .nil
+  | .cons n ns => .cons (mapWsNode n) (mapWs ns)
+def mapWsElifs : ElseIfs → ElseIfs
+  | .nil => .nil
+  | .cons e thn rest => .cons e (mapWs thn) (mapWsElifs rest)
+def mapWsCases : Cases → Cases
+  | .nil => .nil
+  | .cons e b rest => .cons e (mapWs b) (mapWsCases rest)
+end
+
+end TemplVerif.Drive.AstParse
